@@ -100,7 +100,8 @@ Definition C15_monotone_stmt : Prop :=
 
 (** structured nx x ny maps: the boundary is the border, every inner point has its 4 lattice neighbours,
     every regular (affine) lattice is left unchanged by any number of sweeps with any fixed set, and it
-    is the only such configuration with that border.  Proved for 1 <= nx, ny <= 10 (finite part) and all
+    is the only such configuration with that border, and from any interior positions the sweeps converge to
+    it (a regular boundary yields the regular lattice).  Proved for 1 <= nx, ny <= 10 (finite part) and all
     rational origins and steps. *)
 Definition lattice_size (nx ny : nat) : Prop := 1 <= nx <= 10 /\ 1 <= ny <= 10.
 Definition C15_lattice_stmt (size_ok : nat -> nat -> Prop) : Prop :=
@@ -113,7 +114,11 @@ Definition C15_lattice_stmt (size_ok : nat -> nat -> Prop) : Prop :=
     /\ (forall o a b h, length h = n ->
           (forall jn, In jn (schedule quad_ct cells n []) -> harmonic_at h jn) ->
           (forall k, k < n -> border nx ny k = true -> (nth k h 0 == nth k (lattice nx ny o a b) 0)%Q) ->
-          eqv h (lattice nx ny o a b)).
+          eqv h (lattice nx ny o a b))
+    /\ (forall o a b s, length s = n ->
+          (forall k, k < n -> border nx ny k = true -> (nth k s 0 == nth k (lattice nx ny o a b) 0)%Q) ->
+          forall eps, (0 < eps)%Q -> exists K, forall k, K <= k ->
+            within eps (iterate k (schedule quad_ct cells n []) s) (lattice nx ny o a b)).
 
 (** copy back: corner k of face i receives the grid point quad i refers to (so faces sharing a point
     agree), and reading the positions back from the faces returns the grid points *)
@@ -205,15 +210,7 @@ Proof.
 Qed.
 
 Theorem C15_frame : C15_frame_stmt.
-Proof.
-  intros g fixed_idx targets tol2 iters p j H. apply smooth_frame.
-  intros (Hn & Hb & Hf). unfold fixed_set in Hf. rewrite in_app_iff in Hf.
-  destruct H as [H|[H|[H|H]]].
-  - congruence.
-  - tauto.
-  - apply Hf. right. apply fix_points_spec. split; [exact Hn|exact H].
-  - lia.
-Qed.
+Proof. exact smooth_frame_cases. Qed.
 
 Theorem C15_boundary_correct : C15_boundary_correct_stmt.
 Proof. intros ct cells j. apply is_boundary_spec. Qed.
@@ -254,35 +251,8 @@ Proof. exact (conj nbrs_fast_eq (conj schedule_fast_eq smooth_fast_eq)). Qed.
 Theorem C15_convergence : C15_convergence_stmt.
 Proof. exact convergence. Qed.
 
-Lemma schedule_wf_sched ct cells n fixed :
-  (forall i, In i (map fst (schedule ct cells n fixed)) -> reach (schedule ct cells n fixed) i) ->
-  wf_sched n (schedule ct cells n fixed).
-Proof.
-  intros Hr jn Hin. destruct (schedule_wf_lt _ _ _ _ _ Hin) as [A B]. split; [exact A|]. split; [|exact B].
-  assert (Hv : In (fst jn) (map fst (schedule ct cells n fixed))) by (apply in_map; exact Hin).
-  pose proof (Hr _ Hv) as R. inversion R as [i Hnot|i nb t Hin' Ht _]; subst; [contradiction|].
-  assert (ND := schedule_NoDup ct cells n fixed).
-  destruct jn as [j nb0]. simpl in *.
-  assert (nb = nb0) by (apply (sched_functional _ ND j); assumption). subst nb0.
-  intro E. subst nb. destruct Ht.
-Qed.
-
 Theorem C15_smooth_converges : C15_smooth_converges_stmt.
-Proof.
-  intros g fixed_idx targets tol2 xs ys zs hx hy hz fixed sch Lx Ly Lz Lhx Lhy Lhz Hh Hb Hr eps He.
-  assert (WF : wf_sched (g_n g) sch) by (apply schedule_wf_sched; exact Hr).
-  assert (ND : NoDup (map fst sch)) by apply schedule_NoDup.
-  assert (Cv : forall s h, length s = g_n g -> length h = g_n g ->
-            (forall jn, In jn sch -> harmonic_at h jn) ->
-            (forall i, ~ In i (map fst sch) -> (nth i s 0 == nth i h 0)%Q) ->
-            exists K, forall k, K <= k -> within eps (iterate k sch s) h).
-  { intros s h Ls Lh H1 H2. apply convergence; auto; [congruence|rewrite Ls; exact WF]. }
-  destruct (Cv xs hx Lx Lhx (fun jn Hj => proj1 (Hh jn Hj)) (fun i Hi => proj1 (Hb i Hi))) as [Kx HKx].
-  destruct (Cv ys hy Ly Lhy (fun jn Hj => proj1 (proj2 (Hh jn Hj))) (fun i Hi => proj1 (proj2 (Hb i Hi)))) as [Ky HKy].
-  destruct (Cv zs hz Lz Lhz (fun jn Hj => proj2 (proj2 (Hh jn Hj))) (fun i Hi => proj2 (proj2 (Hb i Hi)))) as [Kz HKz].
-  exists (Kx + Ky + Kz). intros iters Hk. unfold smooth. fold fixed. fold sch.
-  split; [apply HKx; lia|]. split; [apply HKy; lia|apply HKz; lia].
-Qed.
+Proof. exact smooth_converges. Qed.
 
 (** structured maps: the finite part, for every size up to 10 x 10.  The check [lattice_ok_all] is evaluated once
     for the reference quad table (Proofs/C15_Lattice.v, prebuilt); when the tabulated QuadCell of this run is
@@ -295,8 +265,10 @@ Qed.
 
 Theorem C15_lattice_partial : C15_lattice_stmt lattice_size.
 Proof.
-  intros nx ny [Hx Hy]. apply lattice_ok_sound.
-  apply (lattice_ok_all_sound quad_ct lattice_ok_all_run); assumption.
+  intros nx ny [Hx Hy].
+  pose proof (lattice_ok_all_sound quad_ct lattice_ok_all_run nx ny Hx Hy) as OK.
+  pose proof (lattice_ok_sound quad_ct nx ny OK) as (A & B & C & D).
+  exact (conj A (conj B (conj C (conj D (lattice_converges quad_ct nx ny OK))))).
 Qed.
 
 (** ** the hypotheses are satisfiable: the 4 x 4 structured map (3 x 3 inner points) with a regular lattice *)
